@@ -1,5 +1,6 @@
 import SpoxModel.Model.Singleton
 import SpoxModel.Lemmas.Singleton
+import SpoxModel.Generated.C05Overrides
 /-! Property theorems for C05 (only property-level statements and non-vacuity examples live here). -/
 set_option linter.unusedSimpArgs false
 set_option linter.unusedVariables false
@@ -429,6 +430,26 @@ theorem supplemented_rejects_more (Infer : InferFn)
     (h : ∃ e, construct Infer c = .error e) : ∃ e, constructSupplemented Infer own c = .error e := by
   obtain ⟨e, he⟩ := h
   exact ⟨e, by simp [constructSupplemented, he]⟩
+
+/-! ### Generated obligation (tie G): which classes leave the standard routine -/
+
+open Generated.C05Overrides in
+/-- The classes under `src/spox/opset/**` that override `infer_output_types` (extracted from the
+    source on this run) are exactly the operators the model treats as supplemented: every other
+    constructor is `construct`. A new override breaks this. -/
+theorem generated_inference_overrides :
+    (overrides.filter (fun e => e.2.2.2.1)).map (fun e => (e.1, e.2.1, e.2.2.1)) = supplemented := by decide
+
+open Generated.C05Overrides in
+/-- … those whose override runs the standard routine first are exactly Compress and Loop
+    (`supplemented_rejects_more` applies to them) … -/
+theorem generated_standard_first :
+    (overrides.filter (fun e => e.2.2.2.2.2)).map (fun e => (e.1, e.2.1, e.2.2.1)) = standardFirst := by decide
+
+open Generated.C05Overrides in
+/-- … and only `Constant` has its own value propagation. -/
+theorem generated_propagation_overrides :
+    (overrides.filter (fun e => e.2.2.2.2.1)).map (fun e => (e.1, e.2.1, e.2.2.1)) = ownPropagation := by decide
 
 /-! ### Value propagation does not touch the types -/
 
